@@ -30,7 +30,7 @@
    "sort the (row, payload) pairs by row" (the model uses its own insertion sort; any correct sort
    gives the same result because rows are distinct). *)
 From Coq Require Import ZArith List Bool.
-From LK Require Import Model.C17_attributes Proofs.C17_align Proofs.C17_read Proofs.C17_main.
+From LK Require Import Model.C17_attributes Model.C17_layout Proofs.C17_align Proofs.C17_read Proofs.C17_layout Proofs.C17_main.
 Import ListNotations.
 Local Open Scope nat_scope.
 
@@ -102,6 +102,51 @@ Theorem vector_arrow_correct : forall size (col : list (option (list elem))),
    else replace_vectors size (map is_some col) (chunk (length col) size (flat_values col))) = col.
 Proof. exact vec_reconstruct. Qed.
 Print Assumptions vector_arrow_correct.
+
+(* "all ways of supplying the data": the memory layout of a supplied array does not matter.
+   A NumPy view shows buf[off + i*s0 + j*s1] at (i, j) (C order, Fortran order = transposed view, strided and
+   reversed slices are choices of off / s0 / s1) ... *)
+Theorem strided_view_element : forall (A : Type) (d : A) buf off s0 s1 n m i j, i < n -> j < m ->
+  nth j (nth i (nd_rows d buf off s0 s1 n m) []) d = buf_at d buf (off + Z.of_nat i * s0 + Z.of_nat j * s1)%Z.
+Proof. exact @nd_rows_nth_l. Qed.
+Print Assumptions strided_view_element.
+
+(* ... and _add_dense_vector_attribute_numpy -- FixedSizeListArray.from_arrays(values.ravel(), ncol), ravel
+   walking the logical matrix row by row -- hands entity i exactly logical row i for every offset and strides;
+   with attr_read_back (stated over these vectors) each entity reads back its own row *)
+Theorem dense_numpy_layout_irrelevant : forall buf off s0 s1 n m, 1 <= m ->
+  dense_from_numpy buf off s0 s1 n m = map Some (nd_rows None buf off s0 s1 n m).
+Proof. exact dense_from_numpy_rows_l. Qed.
+Print Assumptions dense_numpy_layout_irrelevant.
+
+(* a sliced Arrow list array (window [o, o+n) of the raw offsets over the shared child values, lists valid,
+   offsets monotone): flatten() -- what _expand_and_align_list_array stores as the value buffer -- is the range of
+   the child values that starts at the offset of the first list of the window (not at 0, as .values would);
+   the unsliced window is the whole array *)
+Theorem sliced_list_flatten : forall (A : Type) (la : listarray A) o n,
+  (forall r, r < n -> nth (o + r) (la_null la) true = false) ->
+  (forall r, r < n -> nth (o + r) (la_offsets la) 0 <= nth (S (o + r)) (la_offsets la) 0) ->
+  la_flatten la o n = slice (la_values la) (nth o (la_offsets la) 0) (nth (o + n) (la_offsets la) 0).
+Proof. exact @la_flatten_contiguous_l. Qed.
+Print Assumptions sliced_list_flatten.
+
+Theorem list_window_full : forall (A : Type) (la : listarray A), la_window la 0 (length (la_null la)) = la_decode la.
+Proof. exact @la_window_full_l. Qed.
+Print Assumptions list_window_full.
+
+(* non-vacuity of the layout statements: one 3 x 2 matrix held row-major, column-major, strided and reversed
+   decodes to the same rows; cutting the column-major buffer itself (ravel in memory order) does not *)
+Example c17_layout_nonvacuous :
+  let rows := [[1; 2]; [3; 4]; [5; 6]]%Z in
+  nd_rows 0%Z [1; 2; 3; 4; 5; 6]%Z 0 2 1 3 2 = rows /\
+  nd_rows 0%Z [1; 3; 5; 2; 4; 6]%Z 0 1 3 3 2 = rows /\
+  nd_rows 0%Z [1; 9; 2; 9; 9; 9; 9; 9; 3; 9; 4; 9; 9; 9; 9; 9; 5; 9; 6; 9]%Z 0 8 2 3 2 = rows /\
+  nd_rows 0%Z [6; 5; 4; 3; 2; 1]%Z 5 (-2) (-1) 3 2 = rows /\
+  chunk 3 2 (ravel (nd_rows 0%Z [1; 3; 5; 2; 4; 6]%Z 0 1 3 3 2)) = rows /\
+  chunk 3 2 [1; 3; 5; 2; 4; 6]%Z <> rows /\
+  let la := mk_la [0; 1; 3; 3; 4] [7; 1; 2; 3]%Z [false; false; false; false] in
+  la_window la 1 3 = [Some [1; 2]; Some []; Some [3]]%Z /\ la_flatten la 1 3 = [1; 2; 3]%Z /\ la_values la <> la_flatten la 1 3.
+Proof. exact c17_layout_examples. Qed.
 
 (* non-vacuity: entities in two batches, a scalar attribute for a permuted subset, a dense vector
    for every entity known at that time (fixed-size storage) followed by a further batch, a list and a
